@@ -25,6 +25,35 @@ CLAIMED = {
         design="6/C12"),
 }
 
+CLAIMED.update({
+    "C01": dict(
+        technique="Lean 4 proof chain (control logic, clean stage => all obtained, obtained => declared size) + end-to-end fsck monitor and control correspondence on the real APTMirror.run()",
+        text=("C01_exit0_all_stages_clean, C01_clean_stage_all_obtained and C01_clean_stage_sizes are proved for all stage outcomes, "
+              "queues, oracles and prior trees; the real tool is run end-to-end against a simulated upstream under fault plans, "
+              "version switches and local OSErrors, its stage sequence is compared with Model/Control and an independent fsck is "
+              "evaluated whenever it exits 0."),
+        note=("Which files are queued (Release selection, Packages/Sources parsing) is C10/C09; the model-level chain stops at 'every "
+              "queued required file obtained with declared size', the end-to-end conclusion is checked by the fsck monitor. "
+              "Trusted: Lean kernel, model, harness (fsck is an independent re-implementation)."),
+        design="6/C01"),
+    "C02": dict(
+        technique="Lean 4 proof (decision logic of mirror()/run(), frame lemmas) + control correspondence and before/after monitors on the real tool",
+        text=("C02_repo_result_iff / C02_exit_iff / C02_failed_no_publish / C02_repos_independent / C02_download_keeps_names / "
+              "C02_optional_never_fails proved for all stage outcomes; real runs over (V1, V2) histories with per-repository "
+              "fault classes check exit status, byte-identity of the failed repository's dists and superset of files, and that the "
+              "healthy repository is published."),
+        note="Skips worlds where a codename selects no index (S3). Trusted: Lean kernel, model, harness.",
+        design="6/C02"),
+    "C03": dict(
+        technique="Lean 4 proof (invariant over every prefix of move_metadata's operation list) + op-sequence correspondence + live-tree monitor at every real filesystem mutation",
+        text=("C03_publish_prefix (every prefix of the operation list shows old, new, or absent-with-old-intact), C03_publish_final, "
+              "C03_no_inplace_write, C03_download_no_inplace, C03_pool_untouched proved for all staged file sets and prior trees; "
+              "the model's operation list is compared op-for-op with the audit-hook trace of the real move_metadata, and the live "
+              "tree is hashed at every mutation of real update runs."),
+        note="rename(2) atomicity is the model's step rule; standard repositories. Trusted: Lean kernel, model, harness.",
+        design="6/C03"),
+})
+
 NOT_YET = {}
 
 
